@@ -166,6 +166,35 @@ def rule_r3(facts, rep, rid="C13-R3"):
                 rep.violation(rid, key, "the arm creates a node (%s) but does not record its line range afterwards: code actions / references for that block resolve to the wrong block or none" % ctors[0]["name"], aloc)
 
 
+def rule_r4(facts, rep, rid="C13-R4"):
+    """Position's derived ordering must be line-major: `Range<Position>::contains` decides whether the cursor is inside a link."""
+    a = facts.adt("liwe::model::Position")
+    derived_ord = [i for i in facts.impls if i["nself"] == a["path"] and i.get("trait") in ("std::cmp::Ord", "std::cmp::PartialOrd", "core::cmp::Ord", "core::cmp::PartialOrd")]
+    fields = [fl["name"] for fl in a["variants"][0]["fields"]]
+    key = a["path"] + "|ordering-is-line-major"
+    users = []
+    for f in facts.body_fns():
+        if f.crate != "liwe" or "::tests::" in f.def_:
+            continue
+        for x in fb.walk(f.body):
+            if x.get("k") == "mcall" and x["name"] == "contains" and "Range<liwe::model::Position>" in fb.tnorm(x.get("rty") or ""):
+                users.append(f.def_)
+            if x.get("k") == "binary" and x["op"] in ("<", "<=", ">", ">=") and "liwe::model::Position" in (x["l"].get("ty") or ""):
+                users.append(f.def_)
+    if not derived_ord:
+        rep.undecided(rid, key, "Position has no Ord/PartialOrd impl in the fact base (ordering is hand-written or gone); users: %s" % sorted(set(users)))
+        return
+    if all(i.get("derived") for i in derived_ord):
+        if fields[:2] == ["line", "character"]:
+            rep.ok(rid, key, "derive(Ord) on fields %s: compares line first, then column (used by %s)" % (fields, sorted(set(users)) or "-"), "%s:%s" % (a["file"], a["line"]))
+        else:
+            rep.violation(rid, key, "Position derives its ordering from the field order %s: positions compare by %s first, so `Range<Position>::contains` (link_at_position) "
+                          "accepts cursors on other lines of a multi-line block and rejects cursors inside a link that wraps" % (fields, fields[0]), "%s:%s" % (a["file"], a["line"]))
+    else:
+        rep.undecided(rid, key, "Position's ordering is hand-written; not analysed")
+    rep.floor(rid, "ordering users of Position", len(users), 1)
+
+
 def run(facts, rep, tier):
     rep.rule("C13-R1", "The line table is built from real byte offsets of the line terminators (never lines()/split_terminator() + constant) and is compared with `<=`.")
     rep.rule("C13-R2", "Unit discipline at the LSP boundary: the fns converting between model::Position (byte columns) and lsp_types::Position (UTF-16 code units) "
@@ -175,3 +204,5 @@ def run(facts, rep, tier):
     rule_r1(facts, rep)
     rule_r2(facts, rep)
     rule_r3(facts, rep)
+    rep.rule("C13-R4", "Position's ordering is line-major: it is derived, so the struct's field order (line, character) IS the comparison order that Range<Position>::contains relies on.")
+    rule_r4(facts, rep)
